@@ -26,13 +26,9 @@ import traceback
 from . import core
 
 
-def _wrap(args):
+def _expand_item(args):
     func, item = args
-    try:
-        core.reset_store()
-        return ("ok", func(item))
-    except BaseException:  # noqa
-        return ("err", traceback.format_exc())
+    return func(item)
 
 
 def bfs(expand, config, init_key, max_depth=None, max_states=None, jobs=None, acc=None,
@@ -47,50 +43,35 @@ def bfs(expand, config, init_key, max_depth=None, max_states=None, jobs=None, ac
     state_checks = 0
     levels = [1]
     capped = False
-    ctx = mp.get_context("fork")
-    pool = ctx.Pool(jobs) if jobs > 1 else None
-    try:
-        while frontier:
-            if max_depth is not None and depth >= max_depth:
-                capped = True
-                break
-            items = [(expand, (config, h)) for h in frontier]
-            if pool is not None and len(items) > 1:
-                cs = max(1, min(64, len(items) // (jobs * 4)))
-                out = pool.map(_wrap, items, cs)
-            else:
-                out = [_wrap(it) for it in items]
-            nxt = []
-            for (st, res), h in zip(out, frontier):
-                if st == "err":
-                    sys.stderr.write("HARNESS-ERROR: expand crashed on history %r:\n%s\n" % (h, res))
-                    sys.exit(2)
-                state_checks += res.get("n_state_checks", 0)
-                acc.add_problems(res.get("state_probs", []))
-                for op, key, probs, label in res["succ"]:
-                    transitions += 1
-                    acc.outcome(label)
-                    if probs:
-                        acc.add_problems(probs)
-                    if key is None:
+    while frontier:
+        if max_depth is not None and depth >= max_depth:
+            capped = True
+            break
+        out = core.pmap(_expand_item, [(expand, (config, h)) for h in frontier], jobs=jobs)
+        nxt = []
+        for res, h in zip(out, frontier):
+            state_checks += res.get("n_state_checks", 0)
+            acc.add_problems(res.get("state_probs", []))
+            for op, key, probs, label in res["succ"]:
+                transitions += 1
+                acc.outcome(label)
+                if probs:
+                    acc.add_problems(probs)
+                if key is None:
+                    continue
+                if key not in seen:
+                    if max_states is not None and len(seen) >= max_states:
+                        capped = True
                         continue
-                    if key not in seen:
-                        if max_states is not None and len(seen) >= max_states:
-                            capped = True
-                            continue
-                        hh = h + [op]
-                        seen[key] = hh
-                        nxt.append(hh)
-                        if sample_every and len(seen) % sample_every == 0:
-                            acc.sample({"config": config, "history": hh})
-            frontier = nxt
-            depth += 1
-            if nxt:
-                levels.append(len(nxt))
-    finally:
-        if pool is not None:
-            pool.terminate()
-            pool.join()
+                    hh = h + [op]
+                    seen[key] = hh
+                    nxt.append(hh)
+                    if sample_every and len(seen) % sample_every == 0:
+                        acc.sample({"config": config, "history": hh})
+        frontier = nxt
+        depth += 1
+        if nxt:
+            levels.append(len(nxt))
     info = {
         "states": len(seen),
         "transitions": transitions,
